@@ -1,14 +1,266 @@
 /-
 C12 — concurrent evaluations sharing a cache are serializable. Theorems over LiquerModel/EvalO.lean and Conc.lean.
+
+"When several evaluations of overlapping queries run concurrently against one shared cache, under every interleaving of their
+cache accesses each evaluation returns exactly what it would return when run alone, and every value left in the cache equals
+the value of a fresh evaluation of its key.  In particular an entry that another evaluation is still producing is never served
+as a finished result."
+
+Model: a thread is the evaluator run against an oracle (`evalQO`: every `get` consumes the next answer of a list, every cache
+operation is appended to a trace); `stepThread` performs the thread's next cache operation on the shared cache `World` (a `get`
+records the cache's answer) followed by the progress writes after it; `StepAny` lets any thread move.  `Reach env c c'` is the
+reflexive-transitive closure of `StepAny`: all schedules, any length, any number of threads.
+
+Vocabulary (Lemmas/ConcW.lean, ConcO3.lean, ConcO5.lean, EvalDefs.lean):
+  `GoodAt env k st`   — `st` is, up to `status`, the successful, non-volatile, cacheable reference value of the key text `k`;
+  `Sound env w`       — every data-bearing entry of `w` is `GoodAt` its key (= "equals the value of a fresh evaluation of its key");
+  `GoodAns env k a`   — the answer `a` to `get k` is a miss or `GoodAt` `k`;
+  `GoodPairs env tr A` — the `i`-th answer of `A` is good for the key of the `i`-th `get` of the trace `tr`;
+  `OpGood env op`     — `op` writes no data, or stores `GoodAt` data under its own key;
+  `Closed env C T`, `CanonOK env q` — the class of queries an evaluation stays in, and C02's print-parse round trip for them
+                         (hypotheses exactly as in C01/C04).
+Proof structure: ConcO1 (one-step equations of the oracle evaluator), ConcO2 (frame: trace grows, answers accounted, starved ⇒
+`unmodelled`), ConcO3 (refinement by induction on the fuel, reusing the reference-side lemmas of R-eval), ConcO4 (more answers
+only extend the trace), ConcO5 (the invariant and its preservation by every step), ConcO6 (an oracle fed the answers of a cache
+is the sequential evaluator).
 -/
 import LiquerModel.Conc
 import LiquerProofs.Inst.Vocab
+import LiquerProofs.Lemmas.ConcO4
+import LiquerProofs.Lemmas.ConcO5
+import LiquerProofs.Lemmas.EvalCor
+import LiquerProofs.Lemmas.EvalExample
 
 namespace Liquer.C12
 
 /-- the regenerated command signature table satisfies the side conditions the evaluator theorems assume -/
 theorem inst_registry : Inst.registryOK Gen.registry = true := Inst.registry_ok
 
+/-! ### 1. the shared cache answers with finished values only -/
+
+/-- every answer of a `Sound` cache is a miss or the good value of the key asked -/
+theorem good_answer {env : Env} {w : World} (h : Sound env w) (k : Str) : GoodAns env k (w.get k) := h.get_good k
+
+/-! ### 2. oracle refinement: a thread that received good answers writes good data and returns the reference value -/
+
+/-- The analogue of R-eval for the oracle evaluator.  If every answer the run consumed is good for the key it was asked for,
+then (a) every `store` of its trace writes the good value of its own key, (b) every operation of the trace is harmless
+(`storeMeta`, `remove` and `get` write no data), and (c) when the run did not starve and its outcome is modelled, the
+observation is that of the reference interpretation. -/
+theorem oracle_refines {env : Env} {C : Query → Prop} {T : Str → Prop} (hC : Closed env C T)
+    (hcanon : ∀ q, C q → CanonOK env q) (n : Nat) (A : List (Option EState)) (q : Query) (raw : Str) (hCq : C q)
+    (hG : GoodPairs env (evalQO env n { answers := A } q raw .none none true).1.trace A) :
+    (∀ st, COp.store st ∈ (evalQO env n { answers := A } q raw .none none true).1.trace → GoodAt env st.query st) ∧
+    (∀ op ∈ (evalQO env n { answers := A } q raw .none none true).1.trace, OpGood env op) ∧
+    ((evalQO env n { answers := A } q raw .none none true).1.starved = false →
+      (evalQO env n { answers := A } q raw .none none true).2 ≠ .unmodelled →
+      ∃ m, (refQ env m q raw .none none).1 ≠ .unmodelled ∧
+        (evalQO env n { answers := A } q raw .none none true).2.obs = (refQ env m q raw .none none).1.obs) := by
+  obtain ⟨h1, h2⟩ := evalQO_refines hC hcanon n A q raw hCq hG
+  refine ⟨fun st hst => h1 _ hst, h1, fun _ hne => ?_⟩
+  obtain ⟨m, hsim⟩ := h2 hne
+  exact ⟨m, Outcome.sim_ne_unmodelled hsim hne, Outcome.sim_obs hsim⟩
+
+/-- frame of an oracle run: the answers consumed are exactly accounted for by the `get`s of the trace — a run that did not
+starve asked as many keys as it consumed answers, a starved run asked one key more than there were answers — and a starved
+run returns `unmodelled` -/
+theorem oracle_frame (env : Env) (n : Nat) (A : List (Option EState)) (q : Query) (raw : Str) :
+    ((evalQO env n { answers := A } q raw .none none true).1.starved = false →
+      ∃ used, A = used ++ (evalQO env n { answers := A } q raw .none none true).1.answers ∧
+        used.length = (gets (evalQO env n { answers := A } q raw .none none true).1.trace).length) ∧
+    ((evalQO env n { answers := A } q raw .none none true).1.starved = true →
+      A.length < (gets (evalQO env n { answers := A } q raw .none none true).1.trace).length ∧
+      (evalQO env n { answers := A } q raw .none none true).2 = .unmodelled) := by
+  have h := (frameO env n).q { answers := A } q raw .none none true
+  have hw := h.2.1 A (WFO.init A)
+  exact ⟨hw.2, fun hs => ⟨hw.1 hs, h.2.2 rfl hs⟩⟩
+
+/-- more answers only extend what a thread does: the trace against `A` is a prefix of the trace against `A ++ B` -/
+theorem answers_extend_trace (env : Env) (n : Nat) (A B : List (Option EState)) (q : Query) (raw : Str) :
+    (evalQO env n { answers := A } q raw .none none true).1.trace <+:
+      (evalQO env n { answers := A ++ B } q raw .none none true).1.trace :=
+  evalQO_ext_prefix env n A B q raw .none none true
+
+/-! ### 3. world lemmas -/
+
+/-- a harmless operation keeps the shared cache `Sound`; progress metadata, removals and look-ups are always harmless -/
+theorem apply_op_sound {env : Env} {w : World} {ans : List (Option EState)} (h : Sound env w) {op : COp}
+    (hop : OpGood env op) : Sound env (applyOp (w, ans) op).1 := Sound.applyOp (acc := (w, ans)) h hop
+
+theorem meta_remove_harmless (env : Env) (k x : Str) :
+    OpGood env (.storeMeta k x) ∧ OpGood env (.remove k) ∧ OpGood env (.get k) := ⟨trivial, trivial, trivial⟩
+
+/-- the answer recorded by a `get` step is the cache's answer at that moment, and it is good -/
+theorem recorded_answer_good {env : Env} {w : World} {ans : List (Option EState)} (h : Sound env w) (k : Str) :
+    (applyOp (w, ans) (.get k)).2 = ans ++ [w.get k] ∧ GoodAns env k (w.get k) := ⟨rfl, h.get_good k⟩
+
+/-! ### 4. the invariant -/
+
+/-- the invariant: the shared cache is `Sound`; every thread evaluates a query of the class, has performed a prefix of its
+trace, has received exactly the answers of the `get`s it performed, each good for its key; a result is the outcome of a run
+that did not starve -/
+theorem inv_iff (env : Env) (C : Query → Prop) (c : Config) :
+    Inv env C c ↔ Sound env c.shared ∧ ∀ t ∈ c.threads, ThreadOK env C t := Iff.rfl
+
+theorem fresh_inv {env : Env} {C : Query → Prop} {c : Config} (h : Fresh env C c) : Inv env C c := h.inv
+
+theorem step_preserves_inv {env : Env} {C : Query → Prop} {T : Str → Prop} (hC : Closed env C T)
+    (hcanon : ∀ q, C q → CanonOK env q) {c : Config} (h : Inv env C c) (i : Nat) : Inv env C (stepAt env c i) :=
+  stepAt_inv hC hcanon (fun n A B q raw => evalQO_ext_prefix env n A B q raw .none none true) h i
+
+theorem start_preserves_inv {env : Env} {C : Query → Prop} {c : Config} (h : Inv env C c) : Inv env C (startAll env c) :=
+  startAll_inv h
+
+theorem reach_preserves_inv {env : Env} {C : Query → Prop} {T : Str → Prop} (hC : Closed env C T)
+    (hcanon : ∀ q, C q → CanonOK env q) {c c' : Config} (hr : Reach env c c') (h : Inv env C c) : Inv env C c' :=
+  hr.inv hC hcanon (fun n A B q raw => evalQO_ext_prefix env n A B q raw .none none true) h
+
+theorem schedule_preserves_inv {env : Env} {C : Query → Prop} {T : Str → Prop} (hC : Closed env C T)
+    (hcanon : ∀ q, C q → CanonOK env q) (sched : List Nat) (fuel : Nat) {c : Config} (h : Inv env C c) :
+    Inv env C (finishAll env fuel (runSchedule env (startAll env c) sched)) :=
+  finishAll_inv hC hcanon (fun n A B q raw => evalQO_ext_prefix env n A B q raw .none none true) fuel
+    (runSchedule_inv hC hcanon (fun n A B q raw => evalQO_ext_prefix env n A B q raw .none none true) sched
+      (startAll_inv h))
+
+/-- `runSchedule`, `finishAll` are instances of reachability (indices out of range do nothing) -/
+theorem schedule_reach (env : Env) (c : Config) (sched : List Nat) (fuel : Nat) :
+    Reach env c (finishAll env fuel (runSchedule env c sched)) :=
+  ((Reach.refl c).runSchedule sched).finishAll fuel
+
+/-! ### 5. the property -/
+
+/-- Every value left in the cache equals the fresh value of its key: from a `Sound` shared cache and fresh threads, under
+every schedule (before or after `startAll`), the shared cache of every reachable configuration is `Sound`. -/
+theorem cache_sound_every_schedule {env : Env} {C : Query → Prop} {T : Str → Prop} (hC : Closed env C T)
+    (hcanon : ∀ q, C q → CanonOK env q) {c0 c : Config} (h0 : Fresh env C c0)
+    (hr : Reach env c0 c ∨ Reach env (startAll env c0) c) : Sound env c.shared := by
+  rcases hr with hr | hr
+  · exact (reach_preserves_inv hC hcanon hr h0.inv).1
+  · exact (reach_preserves_inv hC hcanon hr (startAll_inv h0.inv)).1
+
+/-- spelled out: every data-bearing entry of every reachable shared cache is the reference value of its key text -/
+theorem cache_values_fresh {env : Env} {C : Query → Prop} {T : Str → Prop} (hC : Closed env C T)
+    (hcanon : ∀ q, C q → CanonOK env q) {c0 c : Config} (h0 : Fresh env C c0)
+    (hr : Reach env c0 c ∨ Reach env (startAll env c0) c) (k : Str) (st : EState) (hk : c.shared.dataAt k = some st) :
+    ∃ fuel st' calls, refText env fuel k = (.st st', calls) ∧ st'.isError = false ∧ st'.volatile = false ∧
+      st'.caching = true ∧ st.core = st'.core :=
+  cache_sound_every_schedule hC hcanon h0 hr k st hk
+
+/-- Each evaluation returns what it returns alone: in every reachable configuration the result of a finished thread has the
+observation of the reference interpretation of its query. -/
+theorem result_is_solo {env : Env} {C : Query → Prop} {T : Str → Prop} (hC : Closed env C T)
+    (hcanon : ∀ q, C q → CanonOK env q) {c0 c : Config} (h0 : Fresh env C c0)
+    (hr : Reach env c0 c ∨ Reach env (startAll env c0) c) (t : Thread) (ht : t ∈ c.threads) (o : Outcome)
+    (ho : t.result = some o) (hne : o ≠ .unmodelled) :
+    ∃ m, (refQ env m t.q t.raw .none none).1 ≠ .unmodelled ∧ o.obs = (refQ env m t.q t.raw .none none).1.obs := by
+  have hinv : Inv env C c := by
+    rcases hr with hr | hr
+    · exact reach_preserves_inv hC hcanon hr h0.inv
+    · exact reach_preserves_inv hC hcanon hr (startAll_inv h0.inv)
+  obtain ⟨m, hsim⟩ := (hinv.2 t ht).result_sim hC hcanon ho hne
+  exact ⟨m, Outcome.sim_ne_unmodelled hsim hne, Outcome.sim_obs hsim⟩
+
+/-- … which is the observation of the sequential evaluator `evalQ` run alone against any `Sound` cache (an empty one, the
+initial one, or the final one), by cache transparency (C04) -/
+theorem result_is_sequential {env : Env} {C : Query → Prop} {T : Str → Prop} (hC : Closed env C T)
+    (hcanon : ∀ q, C q → CanonOK env q) {c0 c : Config} (h0 : Fresh env C c0)
+    (hr : Reach env c0 c ∨ Reach env (startAll env c0) c) (t : Thread) (ht : t ∈ c.threads) (o : Outcome)
+    (ho : t.result = some o) (hne : o ≠ .unmodelled) (n : Nat) (w : World) (hS : Sound env w)
+    (he : (evalQ env n w t.q t.raw .none none true).2 ≠ .unmodelled) :
+    o.obs = (evalQ env n w t.q t.raw .none none true).2.obs := by
+  have hinv : Inv env C c := by
+    rcases hr with hr | hr
+    · exact reach_preserves_inv hC hcanon hr h0.inv
+    · exact reach_preserves_inv hC hcanon hr (startAll_inv h0.inv)
+  obtain ⟨m, hm, hobs⟩ := result_is_solo hC hcanon h0 hr t ht o ho hne
+  rw [hobs, evalQ_obs hC hcanon n m w t.q t.raw .none none true hS (hinv.2 t ht).inC (fun _ => rfl) he hm]
+
+/-- two threads evaluating the same query under any schedule agree with each other -/
+theorem same_query_same_result {env : Env} {C : Query → Prop} {T : Str → Prop} (hC : Closed env C T)
+    (hcanon : ∀ q, C q → CanonOK env q) {c0 c : Config} (h0 : Fresh env C c0)
+    (hr : Reach env c0 c ∨ Reach env (startAll env c0) c) (t t' : Thread) (ht : t ∈ c.threads) (ht' : t' ∈ c.threads)
+    (hq : t.q = t'.q) (hraw : t.raw = t'.raw) (o o' : Outcome) (ho : t.result = some o) (ho' : t'.result = some o')
+    (hne : o ≠ .unmodelled) (hne' : o' ≠ .unmodelled) : o.obs = o'.obs := by
+  obtain ⟨m, hm, hobs⟩ := result_is_solo hC hcanon h0 hr t ht o ho hne
+  obtain ⟨m', hm', hobs'⟩ := result_is_solo hC hcanon h0 hr t' ht' o' ho' hne'
+  rw [hobs, hobs', hq, hraw] at *
+  rw [refQ_det env t'.q t'.raw .none none hm hm']
+
+/-- An entry another evaluation is still producing is never served as a finished result, thread side: in every reachable
+configuration every answer a thread has received is a miss or the finished (good) value of the key it asked for. -/
+theorem answers_are_finished {env : Env} {C : Query → Prop} {T : Str → Prop} (hC : Closed env C T)
+    (hcanon : ∀ q, C q → CanonOK env q) {c0 c : Config} (h0 : Fresh env C c0)
+    (hr : Reach env c0 c ∨ Reach env (startAll env c0) c) (t : Thread) (ht : t ∈ c.threads) :
+    GoodPairs env (t.run env).1.trace t.answers := by
+  have hinv : Inv env C c := by
+    rcases hr with hr | hr
+    · exact reach_preserves_inv hC hcanon hr h0.inv
+    · exact reach_preserves_inv hC hcanon hr (startAll_inv h0.inv)
+  exact (hinv.2 t ht).good
+
+/-- … cache side: a progress (`store_metadata`) write — including the `ready` one that precedes `store` — never creates data:
+afterwards the entry holds the data it held before (caches that keep data on a metadata write) or none … -/
+theorem never_serves_unfinished (w : World) (hen : w.enabled = true) (k status : Str) :
+    (w.storeMeta k status).dataAt k = (if w.metaKeepsData then w.dataAt k else none) ∧
+    (∀ k', k' ≠ k → (w.storeMeta k status).dataAt k' = w.dataAt k') :=
+  ⟨World.dataAt_storeMeta_self w hen k status, fun k' hk => World.dataAt_storeMeta_other w k status k' hk⟩
+
+/-- … and an entry without data is a miss whatever its status says: a key whose producer has only written metadata so far is
+not served -/
+theorem metadata_only_is_miss (w : World) (k status : Str) (h : w.dataAt k = none) :
+    w.get k = none ∧ (w.storeMeta k status).get k = none := by
+  refine ⟨World.get_of_dataAt_none h, World.get_of_dataAt_none ?_⟩
+  cases hd : (w.storeMeta k status).dataAt k with
+  | none => rfl
+  | some s => rw [World.dataAt_storeMeta hd] at h; simp at h
+
+/-! ### non-vacuity -/
+
+open Ex in
+/-- two overlapping evaluations on an empty cache: `one/add-2` and its prefix `one` -/
+def cfg0 : Config :=
+  { shared := {}, threads := [{ q := qOneAdd, raw := s "one/add-2" }, { q := qOne, raw := s "one" }] }
+
+-- the hypotheses hold for the example family and this configuration
+open Ex in
+example : Closed env0 C0 T0 ∧ (∀ q, C0 q → CanonOK env0 q) ∧ Fresh env0 C0 cfg0 := by
+  refine ⟨closed0, canon0, Sound.empty _, fun t ht => ?_⟩
+  simp only [cfg0, List.mem_cons, List.not_mem_nil, or_false] at ht
+  rcases ht with rfl | rfl <;> simp [C0]
+
+-- thread 0 is pre-empted between its last progress write for `one` (status `ready`) and the `store`: the entry of `one` says
+-- `ready` but holds no data, thread 1 asking for `one` gets a miss (it is not served the unfinished entry) …
+open Ex in
+example :
+    let c1 := runSchedule env0 (startAll env0 cfg0) [0, 0]
+    (c1.shared.entry (s "one")).map (fun e => (e.status == statusReady, e.st.isSome)) = some (true, false) ∧
+    c1.shared.get (s "one") = none ∧
+    (c1.threads.map (·.done)) = [5, 0] ∧
+    ((runSchedule env0 c1 [1]).threads.map (fun t => t.answers.map Option.isSome)) = [[false, false], [false]] := by
+  decide +kernel
+
+-- … and whatever happens next — here both threads interleave their remaining operations — both return their solo results
+-- (3 and 1, as the reference interpretation), the cache ends with the fresh values of `one` and `one/add-2`
+open Ex in
+example :
+    let c := finishAll env0 20 (runSchedule env0 (startAll env0 cfg0) [0, 0, 1, 0, 1, 0, 1])
+    (c.threads.map (fun t => (t.result.bind (·.obs)).map (·.value))) = [some (some (.int 3)), some (some (.int 1))] ∧
+    (refQ env0 9 qOneAdd (s "one/add-2") .none none).1.obs.map (·.value) = some (some (.int 3)) ∧
+    (refQ env0 9 qOne (s "one") .none none).1.obs.map (·.value) = some (some (.int 1)) ∧
+    ((c.shared.get (s "one")).map (·.data)) = some (.int 1) ∧
+    ((c.shared.get (s "one/add-2")).map (·.data)) = some (.int 3) := by
+  decide +kernel
+
+-- the theorems apply to it: the final cache is `Sound`
+open Ex in
+example : Sound env0 (finishAll env0 20 (runSchedule env0 (startAll env0 cfg0) [0, 0, 1, 0, 1, 0, 1])).shared :=
+  cache_sound_every_schedule closed0 canon0
+    (by
+      refine ⟨Sound.empty _, fun t ht => ?_⟩
+      simp only [cfg0, List.mem_cons, List.not_mem_nil, or_false] at ht
+      rcases ht with rfl | rfl <;> simp [C0])
+    (Or.inr (schedule_reach env0 _ _ _))
+
 end Liquer.C12
 
--- OBLIGATIONS: Liquer.C12.inst_registry
+-- OBLIGATIONS: Liquer.C12.inst_registry Liquer.C12.good_answer Liquer.C12.oracle_refines Liquer.C12.oracle_frame Liquer.C12.answers_extend_trace Liquer.C12.apply_op_sound Liquer.C12.meta_remove_harmless Liquer.C12.recorded_answer_good Liquer.C12.inv_iff Liquer.C12.fresh_inv Liquer.C12.step_preserves_inv Liquer.C12.start_preserves_inv Liquer.C12.reach_preserves_inv Liquer.C12.schedule_preserves_inv Liquer.C12.schedule_reach Liquer.C12.cache_sound_every_schedule Liquer.C12.cache_values_fresh Liquer.C12.result_is_solo Liquer.C12.result_is_sequential Liquer.C12.same_query_same_result Liquer.C12.answers_are_finished Liquer.C12.never_serves_unfinished Liquer.C12.metadata_only_is_miss
